@@ -179,3 +179,82 @@ Proof.
   destruct (N.ltb_spec (size * 8) off); destruct (N.ltb_spec (size * 8 - off) len); destruct (N.ltb_spec (size * 8) (off + len));
     cbn [orb]; first [reflexivity | exfalso; lia].
 Qed.
+
+(* ---------------------------------------------------------------------------------------------------------------------------
+   bitspan::padAndMoveToAlignment and bitspan::subspan(bits_at, size_bits) before /repo fcc36ca (findings F-BITSPAN-PAD-TRUNC,
+   F-BITSPAN-SUBSPAN-WRAP, status fixed): the padding amount was cast to uint8_t, and the two sums of subspan wrapped silently. *)
+Definition padAndMoveToAlignment_old (s : span) (n_bits : N) : option ((bytes * N) + err) :=
+  if n_bits =? 0 then None
+  else
+    let padding := cast_u 8 (n_bits - sp_off s mod n_bits) in            (* static_cast<uint8_t>(...) *)
+    if negb (padding =? n_bits) then
+      match setZeros s padding with
+      | None => None
+      | Some (inr e) => Some (inr e)
+      | Some (inl d) => Some (inl (d, w64 (sp_off s + padding)))
+      end
+    else Some (inl (sp_data s, sp_off s)).
+
+Definition subspan2_old (s : span) (bits_at size_bits : N) : span + err :=
+  let offset_bits := w64 (sp_off s + bits_at) in
+  let offset_bytes := offset_bits / 8 in
+  let new_offset_bits := offset_bits mod 8 in
+  if sp_size s <? offset_bytes then inr TooSmall
+  else
+    let new_size_bits := w64 (new_offset_bits + size_bits) in
+    let size_available_bits := w64 ((sp_size s - offset_bytes) * 8) in
+    if size_available_bits <? new_size_bits then inr TooSmall
+    else inl (mkspan (skipn (N.to_nat offset_bytes) (sp_data s)) (new_size_bits / 8) new_offset_bits).
+
+(* 80-byte zero buffer, cursor 8: padAndMoveToAlignment(512) reported success and left the cursor at 256 (504 truncated to uint8_t
+   is 248), which is not a multiple of 512 *)
+Theorem pad_old_truncates_refuted :
+  exists s n, span_ok s /\ bytes_ok (sp_data s) /\ 1 <= n < two64 /\
+    exists r o, padAndMoveToAlignment_old s n = Some (inl (r, o)) /\ o mod n <> 0.
+Proof.
+  assert (T64 : two64 = 18446744073709551616) by reflexivity.
+  exists (mkspan (repeat 0 80) 80 8), 512.
+  split; [unfold span_ok, blen; cbn [sp_size sp_data sp_off]; rewrite repeat_length; lia|].
+  split; [apply (bytes_ok_repeat0 80)|]. split; [lia|].
+  eexists _, _. split; [vm_compute; reflexivity|]. vm_compute. discriminate.
+Qed.
+
+(* 4-byte buffer, cursor 8: subspan(2^64 - 7, 8) reported success (8 + 2^64 - 7 wrapped to 1); subspan(0, 2^64 - 6) at cursor 7
+   reported success (7 + 2^64 - 6 wrapped to 1: a span of size 0) *)
+Theorem subspan2_old_wraps_refuted :
+  exists s, span_ok s /\
+    (exists r, subspan2_old s (two64 - 7) 8 = inl r) /\
+    (exists r, subspan2_old (mkspan (sp_data s) (sp_size s) 7) 0 (two64 - 6) = inl r).
+Proof.
+  assert (T64 : two64 = 18446744073709551616) by reflexivity.
+  exists (mkspan [0; 0; 0; 0] 4 8). split; [unfold span_ok, blen; cbn [sp_size sp_data sp_off length]; lia|].
+  split; eexists; vm_compute; reflexivity.
+Qed.
+
+(* the current text on the same witnesses *)
+Example bitspan_now_on_the_witnesses :
+  (exists r, padAndMoveToAlignment (mkspan (repeat 0 80) 80 8) 512 = Some (inl (r, 512))) /\
+  subspan2 (mkspan [0; 0; 0; 0] 4 8) (two64 - 7) 8 = inr TooSmall /\
+  subspan2 (mkspan [0; 0; 0; 0] 4 7) 0 (two64 - 6) = inr TooSmall.
+Proof. split; [eexists; vm_compute; reflexivity|]. split; vm_compute; reflexivity. Qed.
+
+(* on the old domains fcc36ca changed nothing *)
+Theorem pad_old_is_current_on_uint8 s n : n <= 255 -> padAndMoveToAlignment s n = padAndMoveToAlignment_old s n.
+Proof.
+  intros Hn. unfold padAndMoveToAlignment, padAndMoveToAlignment_old. destruct (N.eqb_spec n 0); [reflexivity|].
+  rewrite cast_u_small; [reflexivity|]. change (2 ^ 8) with 256. lia.
+Qed.
+
+Theorem subspan2_old_is_current_without_wrap s bits_at size_bits :
+  span_ok s -> sp_off s + bits_at < two64 -> size_bits + 8 < two64 ->
+  subspan2 s bits_at size_bits = subspan2_old s bits_at size_bits.
+Proof.
+  intros (S1 & S2 & S3) Hw Hsb. pose proof (subspan2_spec s bits_at size_bits (conj S1 (conj S2 S3)) Hw Hsb) as A. cbn zeta in A.
+  assert (T64 : two64 = 18446744073709551616) by reflexivity.
+  unfold subspan2_old. rewrite (w64_small (sp_off s + bits_at)) by exact Hw.
+  set (k := (sp_off s + bits_at) / 8) in *. set (o := (sp_off s + bits_at) mod 8) in *.
+  assert (Ho : o < 8) by (subst o; apply N.mod_lt; discriminate).
+  destruct (N.ltb_spec (sp_size s) k); cbn [orb] in A; [exact A|].
+  rewrite (w64_small (o + size_bits)) by lia. rewrite (w64_small ((sp_size s - k) * 8)) by lia.
+  destruct (N.ltb_spec ((sp_size s - k) * 8) (o + size_bits)); [exact A|exact (proj1 A)].
+Qed.
